@@ -15,7 +15,7 @@ import (
 
 // Mut sets one field to a value. Field grammar:
 //   par2: slice_size | nrec | ids:{dup,unsorted,extra,missing,reverse} | f<i>.length | f<i>.md5 | f<i>.md516k | f<i>.pairs | f<i>.name |
-//         r<j>.exp | r<j>.len | pktlen:<file>:<k> | drop:<type>:<file> | dup:<type>:<file> | ifscid:<i>
+//         r<j>.exp | r<j>.len | pktlen:<file>:<k> | drop:<type>:<file> | dup:<type>:<file> | ifscid:<i> | recvinindex | recvonlyinindex
 //   par1: h<file>.<version|volnum|count|listoff|listsize|dataoff|datasize> | e<k>.<entrysize|status|size> | addentries | vol.datalen
 type Mut struct {
 	Field string `json:"field"`
@@ -71,6 +71,7 @@ func BuildPAR2(muts []Mut) (map[string][]byte, uint64, []decl) {
 	for e := 0; e < 6; e++ {
 		recs = append(recs, rsp{uint32(e), S})
 	}
+	recvInIndex, recvInVolume := false, true
 	nrecOverride := int64(-1)
 	idsMode := ""
 	pktlen := map[string]uint64{}
@@ -119,6 +120,12 @@ func BuildPAR2(muts []Mut) (map[string][]byte, uint64, []decl) {
 			} else {
 				r.len = int(m.Val)
 			}
+		case f == "recvonlyinindex":
+			// a single-file set: the recovery packets are in the file given to Verify/Repair and nowhere else
+			recvInIndex, recvInVolume = true, false
+		case f == "recvinindex":
+			// the file given to Verify/Repair carries the recovery packets as well (a single-file set, or a volume passed as the index)
+			recvInIndex = true
 		case strings.HasPrefix(f, "pktlen:"):
 			pktlen[f[7:]] = m.Val
 		case strings.HasPrefix(f, "drop:"):
@@ -235,7 +242,7 @@ func BuildPAR2(muts []Mut) (map[string][]byte, uint64, []decl) {
 		}
 		return out
 	}
-	out := map[string][]byte{"set.par2": assemble(0, false), "set.vol00+06.par2": assemble(1, true)}
+	out := map[string][]byte{"set.par2": assemble(0, recvInIndex), "set.vol00+06.par2": assemble(1, recvInVolume)}
 	var ds []decl
 	for _, fs := range files {
 		ds = append(ds, decl{fs.f.Name, fs.f.Length, fs.f.MD5, fs.f.MD516k, true})
